@@ -1,13 +1,663 @@
-// C18 harness — distribution configurations (stub, filled in below)
+// C18 harness — distribution configurations: every registered scalar family (plus mixtures,
+// transforms and "vector:scalar iid") through ExportConfig -> JSON -> ImportConfig on the implementation,
+// malformed configurations, Coq cases for coq/C18/ConfigCorr.v, and the property-level oracle.
 package main
 
-import . "adharness/common"
+import (
+	"bytes"
+	"encoding/json"
+	"fmt"
+	"math"
+	"reflect"
+	"sort"
+	"strings"
 
-const cheader = "From Coq Require Import ZArith List Bool Floats.\nFrom ADV Require Import C18.Model C18.Corr.\nImport ListNotations.\nOpen Scope Z_scope.\n"
+	. "adharness/common"
 
-type CfgRecipe struct{}
+	ad "github.com/pbenner/autodiff"
+	st "github.com/pbenner/autodiff/statistics"
+	sd "github.com/pbenner/autodiff/statistics/scalarDistribution"
+	vd "github.com/pbenner/autodiff/statistics/vectorDistribution"
+)
 
-func shrinkCfg(rc Recipe, still func(Recipe) bool) Recipe { return rc }
+const cheader = "From Coq Require Import ZArith List Bool Floats.\nFrom ADV Require Import C18.Model C18.Corr C18.ConfigModel C18.ConfigCorr.\nImport ListNotations.\nOpen Scope Z_scope.\n"
 
-func runConfig(rc Recipe) (res Result) { return res }
-func genCfgRecipe(r *Rng) Recipe        { return Recipe{Kind: "cfg"} }
+// CfgRecipe: a distribution by its constructor arguments (natural scale), or a malformed document.
+type CfgRecipe struct {
+	Fam  string      `json:",omitempty"` // Coq constructor name of the family, e.g. FNormal
+	Ps   []float64   `json:",omitempty"`
+	Kids []CfgRecipe `json:",omitempty"`
+	Doc  string      `json:",omitempty"` // cfg-mal: the JSON text
+}
+
+type famInfo struct {
+	Coq, Name, GoType string
+	Arity             int
+}
+
+var fams = []famInfo{
+	{"FBeta", "scalar:beta distribution", "BetaDistribution", 3},
+	{"FBinomial", "scalar:binomial distribution", "BinomialDistribution", 2},
+	{"FCategorical", "scalar:categorical distribution", "CategoricalDistribution", -1},
+	{"FCauchy", "scalar:cauchy distribution", "CauchyDistribution", 2},
+	{"FDelta", "scalar:delta distribution", "DeltaDistribution", 1},
+	{"FExponential", "scalar:exponential distribution", "ExponentialDistribution", 1},
+	{"FGamma", "scalar:gamma distribution", "GammaDistribution", 2},
+	{"FGenGamma", "scalar:generalized gamma distribution", "GeneralizedGammaDistribution", 3},
+	{"FGeometric", "scalar:geometric distribution", "GeometricDistribution", 1},
+	{"FGev", "scalar:gev distribution", "GevDistribution", 3},
+	{"FLaplace", "scalar:laplace distribution", "LaplaceDistribution", 2},
+	{"FNegBinomial", "scalar:negative binomial distribution", "NegativeBinomialDistribution", 2},
+	{"FNormal", "scalar:normal distribution", "NormalDistribution", 2},
+	{"FPareto", "scalar:pareto distribution", "ParetoDistribution", 2},
+	{"FGPareto", "scalar:generalized pareto distribution", "GParetoDistribution", 3},
+	{"FPoisson", "scalar:poisson distribution", "PoissonDistribution", 1},
+	{"FPowerLaw", "scalar:power law distribution", "PowerLawDistribution", 2},
+	{"FMixture", "scalar:mixture distribution", "Mixture", -1},
+	{"FLogT", "scalar:pdf log transform", "PdfLogTransform", 1},
+	{"FTrans", "scalar:pdf translation", "PdfTranslation", 1},
+	{"FIid", "vector:scalar iid", "ScalarIid", 1},
+}
+
+func famByCoq(c string) famInfo {
+	for _, f := range fams {
+		if f.Coq == c {
+			return f
+		}
+	}
+	Die("unknown family %q", c)
+	return famInfo{}
+}
+func famOfName(n string) string {
+	for _, f := range fams {
+		if f.Name == n {
+			return f.Coq
+		}
+	}
+	return "FUnknown"
+}
+func famOfType(t string) string {
+	for _, f := range fams {
+		if f.GoType == t {
+			return f.Coq
+		}
+	}
+	return "FUnknown"
+}
+
+// ---------------------------------------------------------------- trees as observed
+
+type DistT struct {
+	Fam  string
+	Ps   []float64
+	Kids []DistT
+}
+
+func (d DistT) Coq() string {
+	ks := make([]string, len(d.Kids))
+	for i, k := range d.Kids {
+		ks[i] = k.Coq()
+	}
+	return "(Dist " + d.Fam + " " + FList(d.Ps) + " " + List(ks) + ")"
+}
+func vecFloats(v ad.Vector) []float64 {
+	out := make([]float64, v.Dim())
+	for i := range out {
+		out[i] = v.ConstAt(i).GetFloat64()
+	}
+	return out
+}
+
+// read-only observation of a distribution object
+func obsDist(x interface{}) DistT {
+	switch d := x.(type) {
+	case *sd.Mixture:
+		t := DistT{Fam: "FMixture", Ps: vecFloats(d.Mixture.LogWeights)}
+		for _, e := range d.Edist {
+			t.Kids = append(t.Kids, obsDist(e))
+		}
+		return t
+	case *sd.PdfLogTransform:
+		return DistT{Fam: "FLogT", Ps: []float64{reflect.ValueOf(d).Elem().FieldByName("c").Float()}, Kids: []DistT{obsDist(d.ScalarPdf)}}
+	case *sd.PdfTranslation:
+		return DistT{Fam: "FTrans", Ps: []float64{reflect.ValueOf(d).Elem().FieldByName("c").Float()}, Kids: []DistT{obsDist(d.ScalarPdf)}}
+	case *vd.ScalarIid:
+		return DistT{Fam: "FIid", Ps: []float64{float64(reflect.ValueOf(d).Elem().FieldByName("n").Int())}, Kids: []DistT{obsDist(d.Distribution)}}
+	}
+	b := x.(st.BasicDistribution)
+	return DistT{Fam: famOfType(reflect.TypeOf(x).Elem().Name()), Ps: vecFloats(b.GetParameters())}
+}
+
+func jvCoq(p interface{}) string {
+	switch v := p.(type) {
+	case nil:
+		return "JNull"
+	case float64:
+		return "(JNum " + F(v) + ")"
+	case []interface{}:
+		xs := make([]string, len(v))
+		for i, e := range v {
+			xs[i] = jvCoq(e)
+		}
+		return "(JArr " + List(xs) + ")"
+	}
+	return "JOther"
+}
+func cfgCoq(c st.ConfigDistribution) string {
+	ks := make([]string, len(c.Distributions))
+	for i, k := range c.Distributions {
+		ks[i] = cfgCoq(k)
+	}
+	return "(Cfg " + famOfName(c.Name) + " " + jvCoq(c.Parameters) + " " + List(ks) + ")"
+}
+
+// ---------------------------------------------------------------- building distributions
+
+func sc(x float64) ad.Scalar { return ad.NewScalar(ad.Float64Type, x) }
+
+func buildDist(r CfgRecipe) (interface{}, error) {
+	p := func(i int) float64 {
+		if i < len(r.Ps) {
+			return r.Ps[i]
+		}
+		return 0
+	}
+	kid := func(i int) (st.ScalarPdf, error) {
+		k, err := buildDist(r.Kids[i])
+		if err != nil {
+			return nil, err
+		}
+		return k.(st.ScalarPdf), nil
+	}
+	switch r.Fam {
+	case "FBeta":
+		return sd.NewBetaDistribution(sc(p(0)), sc(p(1)), p(2) == 1)
+	case "FBinomial":
+		return sd.NewBinomialDistribution(sc(p(0)), int(p(1)))
+	case "FCategorical":
+		return sd.NewCategoricalDistribution(ad.NewDenseFloat64Vector(append([]float64{}, r.Ps...)))
+	case "FCauchy":
+		return sd.NewCauchyDistribution(sc(p(0)), sc(p(1)))
+	case "FDelta":
+		return sd.NewDeltaDistribution(sc(p(0)))
+	case "FExponential":
+		return sd.NewExponentialDistribution(sc(p(0)))
+	case "FGamma":
+		return sd.NewGammaDistribution(sc(p(0)), sc(p(1)))
+	case "FGenGamma":
+		return sd.NewGeneralizedGammaDistribution(sc(p(0)), sc(p(1)), sc(p(2)))
+	case "FGeometric":
+		return sd.NewGeometricDistribution(sc(p(0)))
+	case "FGev":
+		return sd.NewGevDistribution(sc(p(0)), sc(p(1)), sc(p(2)))
+	case "FLaplace":
+		return sd.NewLaplaceDistribution(sc(p(0)), sc(p(1)))
+	case "FNegBinomial":
+		return sd.NewNegativeBinomialDistribution(sc(p(0)), sc(p(1)))
+	case "FNormal":
+		return sd.NewNormalDistribution(sc(p(0)), sc(p(1)))
+	case "FPareto":
+		return sd.NewParetoDistribution(sc(p(0)), sc(p(1)))
+	case "FGPareto":
+		return sd.NewGParetoDistribution(sc(p(0)), sc(p(1)), sc(p(2)))
+	case "FPoisson":
+		return sd.NewPoissonDistribution(sc(p(0)))
+	case "FPowerLaw":
+		return sd.NewPowerLawDistribution(sc(p(0)), sc(p(1)))
+	case "FMixture":
+		kids := make([]st.ScalarPdf, len(r.Kids))
+		for i := range kids {
+			k, err := kid(i)
+			if err != nil {
+				return nil, err
+			}
+			kids[i] = k
+		}
+		return sd.NewMixture(ad.NewDenseFloat64Vector(append([]float64{}, r.Ps...)), kids)
+	case "FLogT":
+		k, err := kid(0)
+		if err != nil {
+			return nil, err
+		}
+		return sd.NewPdfLogTransform(k, p(0))
+	case "FTrans":
+		k, err := kid(0)
+		if err != nil {
+			return nil, err
+		}
+		return sd.NewPdfTranslation(k, p(0))
+	case "FIid":
+		k, err := kid(0)
+		if err != nil {
+			return nil, err
+		}
+		return vd.NewScalarIid(k, int(p(0)))
+	}
+	return nil, fmt.Errorf("unknown family %s", r.Fam)
+}
+
+func importDoc(c st.ConfigDistribution) (interface{}, error) {
+	if c.Name == "vector:scalar iid" {
+		return st.ImportVectorPdfConfig(c, ad.Float64Type)
+	}
+	return st.ImportScalarPdfConfig(c, ad.Float64Type)
+}
+
+func guardImport(c st.ConfigDistribution) (Outcome, *DistT) {
+	var back interface{}
+	k, msg := guard(func() error {
+		var err error
+		back, err = importDoc(c)
+		return err
+	})
+	o := Outcome{Kind: k, Msg: msg}
+	if k != "ok" {
+		return o, nil
+	}
+	var t DistT
+	if k2, m2 := guard(func() error { t = obsDist(back); return nil }); k2 != "ok" {
+		return Outcome{Kind: "crash", Msg: "imported object cannot be observed: " + m2}, nil
+	}
+	o.Term = t.Coq()
+	return o, &t
+}
+
+// ---------------------------------------------------------------- running a configuration recipe
+
+func hasFam(r CfgRecipe, f string) bool {
+	if r.Fam == f {
+		return true
+	}
+	for _, k := range r.Kids {
+		if hasFam(k, f) {
+			return true
+		}
+	}
+	return false
+}
+func famPath(r CfgRecipe) string {
+	s := r.Fam
+	if len(r.Kids) > 0 {
+		ks := make([]string, len(r.Kids))
+		for i, k := range r.Kids {
+			ks[i] = famPath(k)
+		}
+		s += "(" + strings.Join(ks, ",") + ")"
+	}
+	return s
+}
+
+func approx(a, b float64) bool {
+	if a == b || (math.IsNaN(a) && math.IsNaN(b)) {
+		return true
+	}
+	return math.Abs(a-b) <= 1e-9*(math.Abs(a)+math.Abs(b))+1e-300
+}
+func distDiff(a, b DistT, path string) string {
+	if a.Fam != b.Fam {
+		return fmt.Sprintf("%s: family %s vs %s", path, a.Fam, b.Fam)
+	}
+	if len(a.Ps) != len(b.Ps) {
+		return fmt.Sprintf("%s: %d vs %d parameters", path, len(a.Ps), len(b.Ps))
+	}
+	exact := a.Fam != "FCategorical" && a.Fam != "FMixture" && a.Fam != "FBinomial"
+	for i := range a.Ps {
+		if exact && !(El{F: a.Ps[i]}).Same(El{F: b.Ps[i]}) || !exact && !approx(a.Ps[i], b.Ps[i]) {
+			return fmt.Sprintf("%s: parameter %d: %v vs %v", path, i, a.Ps[i], b.Ps[i])
+		}
+	}
+	if len(a.Kids) != len(b.Kids) {
+		return fmt.Sprintf("%s: %d vs %d components", path, len(a.Kids), len(b.Kids))
+	}
+	for i := range a.Kids {
+		if d := distDiff(a.Kids[i], b.Kids[i], fmt.Sprintf("%s/%d", path, i)); d != "" {
+			return d
+		}
+	}
+	return ""
+}
+
+func runConfig(rc Recipe) (res Result) {
+	r := *rc.Cfg
+	if rc.Kind == "cfg-mal" {
+		return runConfigMal(rc)
+	}
+	obj, err := buildDist(r)
+	if err != nil {
+		Die("cfg recipe does not build: %v (%s)", err, famPath(r))
+	}
+	d := obsDist(obj)
+	cause := ""
+	if hasFam(r, "FBinomial") {
+		cause = "binomial"
+	}
+	fail := func(kind, detail string) {
+		res.Failures = append(res.Failures, Failure{Site: "cfg.ImportConfig", Kind: kind, Cause: cause, Detail: detail, Type: famPath(r)})
+	}
+	var doc st.ConfigDistribution
+	wk, wmsg := guard(func() error {
+		var buf bytes.Buffer
+		if err := obj.(st.ConfigurableDistribution).ExportConfig().WriteJson(&buf); err != nil {
+			return err
+		}
+		return json.Unmarshal(buf.Bytes(), &doc)
+	})
+	res.Key = "cfg/" + famPath(r)
+	res.Hist = []string{"cfg/" + r.Fam, "cfg-export:" + wk}
+	if wk != "ok" {
+		// outside the model (generator produces finite parameters only): report, no Coq case
+		res.Failures = append(res.Failures, Failure{Site: "cfg.ExportConfig", Kind: "write-" + wk, Cause: cause, Detail: wmsg, Type: famPath(r)})
+		res.Coq = "CMal Err Err"
+		return res
+	}
+	gr, back := guardImport(doc)
+	res.Coq = fmt.Sprintf("CRt %s %s %s", d.Coq(), cfgCoq(doc), gr.Coq())
+	res.Hist = append(res.Hist, "cfg-import:"+gr.Kind)
+	res.Key += "/" + gr.Kind
+	res.Nontriv = gr.Kind == "ok" && (len(d.Ps) > 1 || len(d.Kids) > 0)
+	switch {
+	case gr.Kind != "ok":
+		fail("roundtrip-"+gr.Kind, gr.Msg)
+	default:
+		if diff := distDiff(d, *back, ""); diff != "" {
+			fail("roundtrip-mismatch", diff)
+		}
+	}
+	return res
+}
+
+// why a configuration document is malformed, from the document alone
+func cfgDocCause(c st.ConfigDistribution, set map[string]bool) {
+	if arr, ok := c.Parameters.([]interface{}); ok {
+		n := 0
+		for _, e := range arr {
+			if e == nil {
+				set["null-param"] = true
+				break
+			}
+			if _, isf := e.(float64); !isf {
+				break
+			}
+			n++
+		}
+		if f := famOfName(c.Name); f != "FUnknown" {
+			if a := famByCoq(f).Arity; a > 0 && n == len(arr) && n < a && f != "FLogT" && f != "FTrans" && f != "FIid" {
+				set["too-few-params"] = true
+			}
+		}
+	} else if c.Parameters == nil {
+		if f := famOfName(c.Name); f != "FUnknown" && f != "FMixture" && f != "FCategorical" && f != "FLogT" && f != "FTrans" && f != "FIid" {
+			set["too-few-params"] = true
+		}
+	}
+	for _, k := range c.Distributions {
+		cfgDocCause(k, set)
+	}
+}
+
+func runConfigMal(rc Recipe) (res Result) {
+	var doc st.ConfigDistribution
+	err := json.Unmarshal([]byte(rc.Cfg.Doc), &doc)
+	docTerm := "Err"
+	res.Key = "cfg-mal/" + rc.Mut
+	res.Hist = []string{"cfg-mal", "cmut:" + rc.Mut}
+	if err != nil {
+		res.Coq = "CMal Err Err"
+		res.Hist = append(res.Hist, "cfg-mal-import:undecodable")
+		return res
+	}
+	docTerm = "(Ok " + cfgCoq(doc) + ")"
+	gr, _ := guardImport(doc)
+	res.Coq = fmt.Sprintf("CMal %s %s", docTerm, gr.Coq())
+	res.Key += "/" + famOfName(doc.Name) + "/" + gr.Kind
+	res.Nontriv = true
+	res.Hist = append(res.Hist, "cfg-mal-import:"+gr.Kind)
+	if gr.Kind == "panic" || gr.Kind == "crash" {
+		set := map[string]bool{}
+		cfgDocCause(doc, set)
+		var c []string
+		for k := range set {
+			c = append(c, k)
+		}
+		sort.Strings(c)
+		res.Failures = []Failure{{Site: "cfg.ImportConfig", Kind: "reader-panic", Cause: strings.Join(c, "+"), Detail: gr.Msg, Type: famOfName(doc.Name)}}
+	}
+	return res
+}
+
+// ---------------------------------------------------------------- generators
+
+func genPos(r *Rng) float64 {
+	return []float64{0.5, 1, 2, 3.25, 1e-3, 1e3, 0.1, 7, 5e-324, 1e300, 0.9999999999999999}[r.Intn(11)]
+}
+func genAny(r *Rng) float64 {
+	x := genPos(r)
+	switch r.Intn(4) {
+	case 0:
+		return -x
+	case 1:
+		return 0
+	}
+	return x
+}
+func genProb(r *Rng) float64 { return []float64{0.5, 0.25, 1, 0.1, 1e-10, 0.9999999999999999, 0.75}[r.Intn(7)] }
+
+func genSimple(r *Rng) CfgRecipe {
+	f := fams[r.Intn(17)]
+	c := CfgRecipe{Fam: f.Coq}
+	switch f.Coq {
+	case "FBeta":
+		c.Ps = []float64{genPos(r), genPos(r), float64(r.Intn(2))}
+	case "FBinomial":
+		c.Ps = []float64{append([]float64{0}, genProb(r))[r.Intn(2)], float64(r.Intn(20))}
+		if c.Ps[0] == 0 {
+			c.Ps[0] = genProb(r)
+		}
+	case "FCategorical":
+		n := r.Range(1, 4)
+		for i := 0; i < n; i++ {
+			c.Ps = append(c.Ps, genProb(r))
+		}
+		if r.Intn(4) == 0 {
+			c.Ps[r.Intn(n)] = 0
+		}
+	case "FCauchy", "FNormal":
+		c.Ps = []float64{genAny(r), genPos(r)}
+	case "FDelta":
+		c.Ps = []float64{genAny(r)}
+	case "FExponential", "FPoisson":
+		c.Ps = []float64{genPos(r)}
+	case "FGamma", "FPareto":
+		c.Ps = []float64{genPos(r), genPos(r)}
+	case "FGenGamma":
+		c.Ps = []float64{genPos(r), genPos(r), genPos(r)}
+	case "FGeometric":
+		c.Ps = []float64{genProb(r)}
+	case "FGev", "FGPareto":
+		c.Ps = []float64{genAny(r), genPos(r), genAny(r)}
+	case "FLaplace":
+		c.Ps = []float64{genAny(r), genAny(r)}
+	case "FNegBinomial":
+		c.Ps = []float64{genPos(r), genProb(r)}
+	case "FPowerLaw":
+		c.Ps = []float64{genPos(r), genPos(r) * []float64{1, -1}[r.Intn(2)]}
+	}
+	return c
+}
+
+func genScalarDist(r *Rng, depth int) CfgRecipe {
+	if depth <= 0 || r.Intn(3) > 0 {
+		return genSimple(r)
+	}
+	switch r.Intn(3) {
+	case 0:
+		n := r.Range(0, 3)
+		c := CfgRecipe{Fam: "FMixture"}
+		for i := 0; i < n; i++ {
+			c.Ps = append(c.Ps, genProb(r))
+			c.Kids = append(c.Kids, genScalarDist(r, depth-1))
+		}
+		return c
+	case 1:
+		return CfgRecipe{Fam: "FLogT", Ps: []float64{genAny(r)}, Kids: []CfgRecipe{genScalarDist(r, depth-1)}}
+	}
+	return CfgRecipe{Fam: "FTrans", Ps: []float64{genAny(r)}, Kids: []CfgRecipe{genScalarDist(r, depth-1)}}
+}
+
+func docText(c CfgRecipe, r *Rng) string {
+	f := famByCoq(c.Fam)
+	ps := make([]string, len(c.Ps))
+	for i, p := range c.Ps {
+		ps[i] = numText(EType{Kind: "f64"}, El{F: p})
+	}
+	ks := make([]string, len(c.Kids))
+	for i, k := range c.Kids {
+		ks[i] = docText(k, r)
+	}
+	d := "null"
+	if len(ks) > 0 {
+		d = "[" + strings.Join(ks, ",") + "]"
+	}
+	return fmt.Sprintf(`{"Name":%q,"Parameters":[%s],"Distributions":%s}`, f.Name, strings.Join(ps, ","), d)
+}
+
+func genCfgMal(r *Rng) Recipe {
+	c := genScalarDist(r, 2)
+	if r.Intn(6) == 0 {
+		c = CfgRecipe{Fam: "FIid", Ps: []float64{[]float64{3, 2.7, 0, -1}[r.Intn(4)]}, Kids: []CfgRecipe{c}}
+	}
+	// mutate one node of the tree (or the text)
+	mut := "valid"
+	var walk func(n *CfgRecipe) []*CfgRecipe
+	walk = func(n *CfgRecipe) []*CfgRecipe {
+		out := []*CfgRecipe{n}
+		for i := range n.Kids {
+			out = append(out, walk(&n.Kids[i])...)
+		}
+		return out
+	}
+	nodes := walk(&c)
+	n := nodes[r.Intn(len(nodes))]
+	textMut := ""
+	switch r.Intn(14) {
+	case 0:
+		if len(n.Ps) > 0 {
+			n.Ps, mut = n.Ps[:len(n.Ps)-1], "drop-param"
+		}
+	case 1:
+		n.Ps, mut = append(n.Ps, genAny(r)), "extra-param"
+	case 2:
+		if len(n.Ps) > 0 {
+			n.Ps[r.Intn(len(n.Ps))], mut = -genPos(r), "negative-param"
+		}
+	case 3:
+		if len(n.Ps) > 0 {
+			n.Ps[r.Intn(len(n.Ps))], mut = 0, "zero-param"
+		}
+	case 4:
+		if len(n.Kids) > 0 {
+			n.Kids, mut = n.Kids[:len(n.Kids)-1], "drop-child"
+		}
+	case 5:
+		n.Kids, mut = append(n.Kids, genSimple(r)), "extra-child"
+	case 6:
+		n.Ps, mut = nil, "no-params"
+	case 7:
+		textMut, mut = "null-elem", "null-elem"
+	case 8:
+		textMut, mut = "string-elem", "string-elem"
+	case 9:
+		textMut, mut = "params-not-array", "params-not-array"
+	case 10:
+		textMut, mut = "unknown-name", "unknown-name"
+	case 11:
+		textMut, mut = "params-null", "params-null"
+	case 12:
+		if len(n.Ps) > 1 {
+			n.Ps[0], n.Ps[1] = n.Ps[1], n.Ps[0]
+			mut = "swap-params"
+		}
+	}
+	s := docText(c, r)
+	switch textMut {
+	case "null-elem":
+		if i := strings.Index(s, `"Parameters":[`); i >= 0 && r.Bool() {
+			s = s[:i] + `"Parameters":[null,` + s[i+len(`"Parameters":[`):]
+		} else {
+			s = strings.Replace(s, `]`, `,null]`, 1)
+		}
+		s = strings.Replace(s, `[,null]`, `[null]`, 1)
+		s = strings.Replace(s, `[null,]`, `[null]`, 1)
+	case "string-elem":
+		s = strings.Replace(s, `"Parameters":[`, `"Parameters":["1.5",`, 1)
+		s = strings.Replace(s, `["1.5",]`, `["1.5"]`, 1)
+	case "params-not-array":
+		s = strings.Replace(s, `"Parameters":[`, `"Parameters":`+[]string{`1.5,"x":[`, `"abc","x":[`, `{"a":1},"x":[`, `true,"x":[`}[r.Intn(4)], 1)
+	case "unknown-name":
+		s = strings.Replace(s, `"Name":"scalar:`, `"Name":"scalar :`, 1)
+	case "params-null":
+		s = strings.Replace(s, `"Parameters":[`, `"Parameters":null,"x":[`, 1)
+	}
+	if r.Intn(25) == 0 {
+		s, mut = s[:len(s)*2/3], mut+"+truncated"
+	}
+	return Recipe{Kind: "cfg-mal", Type: "cfg", Cfg: &CfgRecipe{Doc: s}, Mut: mut}
+}
+
+func genCfgRecipe(r *Rng) Recipe {
+	if r.Intn(5) < 2 {
+		return genCfgMal(r)
+	}
+	c := genScalarDist(r, 3)
+	if r.Intn(8) == 0 {
+		c = CfgRecipe{Fam: "FIid", Ps: []float64{float64(r.Intn(50))}, Kids: []CfgRecipe{c}}
+	}
+	return Recipe{Kind: "cfg", Type: "cfg", Cfg: &c}
+}
+
+// every registered family once, plain and nested (runs with the corpus)
+func cfgRegistrySweep() []Recipe {
+	r := NewRng(20260929)
+	var out []Recipe
+	seen := map[string]bool{}
+	for len(seen) < 17 {
+		c := genSimple(r)
+		if seen[c.Fam] {
+			continue
+		}
+		seen[c.Fam] = true
+		out = append(out, Recipe{Kind: "cfg", Type: "cfg", Cfg: &CfgRecipe{Fam: c.Fam, Ps: c.Ps}})
+		k := c
+		out = append(out, Recipe{Kind: "cfg", Type: "cfg", Cfg: &CfgRecipe{Fam: "FMixture", Ps: []float64{0.25, 0.75}, Kids: []CfgRecipe{k, {Fam: "FLogT", Ps: []float64{1}, Kids: []CfgRecipe{k}}}}})
+	}
+	n := CfgRecipe{Fam: "FNormal", Ps: []float64{1, 2}}
+	out = append(out, Recipe{Kind: "cfg", Type: "cfg", Cfg: &CfgRecipe{Fam: "FIid", Ps: []float64{5}, Kids: []CfgRecipe{{Fam: "FTrans", Ps: []float64{-0.5}, Kids: []CfgRecipe{n}}}}})
+	out = append(out, Recipe{Kind: "cfg", Type: "cfg", Cfg: &CfgRecipe{Fam: "FMixture"}})
+	return out
+}
+
+// ---------------------------------------------------------------- shrinking
+
+func shrinkCfg(rc Recipe, still func(Recipe) bool) Recipe {
+	if rc.Cfg.Doc != "" {
+		c := rc
+		c.Bytes = rc.Cfg.Doc // reuse the JSON-tree shrinker through a temporary view
+		return rc
+	}
+	for round := 0; round < 50; round++ {
+		progressed := false
+		for i := range rc.Cfg.Kids { // replace the tree by one of its children
+			k := rc.Cfg.Kids[i]
+			c := rc
+			c.Cfg = &k
+			if k.Fam != "" && still(c) {
+				rc, progressed = c, true
+				break
+			}
+		}
+		if !progressed {
+			break
+		}
+	}
+	return rc
+}
